@@ -99,15 +99,18 @@ func (i *Int) Init64(v int64, m *compatiblemod.Mod) *Int {
 	// leaks the initialization sign, but the result will be positive anyway...
 	i.M = m
 	i.BO = kyber.BigEndian
-	if v < 0 {
-		i.V = *compatible.FromNat(i.M.Nat())
-		negated := compatible.NewInt(-v)
-		i.V = *compatible.NewInt(0).Sub(&i.V, negated, i.M)
-	} else {
-		i.V = *compatible.NewInt(0).SetUint(uint(v))
-		i.V = *compatible.NewInt(0).Mod(&i.V, m)
-	}
+	i.V = *int64Mod(v, m)
 	return i
+}
+
+// int64Mod returns v mod m in [0, m), also for negative v and for |v| >= m.
+func int64Mod(v int64, m *compatiblemod.Mod) *compatible.Int {
+	if v >= 0 {
+		return compatible.NewInt(0).Mod(compatible.NewUint(uint64(v)), m)
+	}
+	// |v| without overflowing for math.MinInt64
+	abs := compatible.NewInt(0).Mod(compatible.NewUint(uint64(-(v+1))+1), m)
+	return compatible.NewInt(0).Sub(compatible.NewInt(0), abs, m)
 }
 
 // InitBytes init the Int to a number represented in a big-endian byte string.
@@ -189,11 +192,7 @@ func (i *Int) One() kyber.Scalar {
 // SetInt64 sets the Int to an arbitrary 64-bit "small integer" value.
 // The modulus must already be initialized.
 func (i *Int) SetInt64(v int64) kyber.Scalar {
-	if v < 0 {
-		panic("negative value")
-	}
-	i.V = *compatible.NewInt(0).Mod(compatible.NewInt(v), i.M)
-
+	i.V = *int64Mod(v, i.M)
 	return i
 }
 
